@@ -67,6 +67,24 @@ def write_evidence(args, prop, mod, tot, xres, n_viol, wall, known_printed):
         "wall_s": round(wall, 2),
         "violations": n_viol,
     }
+    if hasattr(mod, "discover"):
+        try:
+            from . import runner
+            ev["coverage"]["seeded_api_discovery"] = mod.discover(runner._ctx["S"])
+        except Exception as e:      # informational only
+            ev["coverage"]["seeded_api_discovery"] = {"error": repr(e)}
+    for name in ("selftest_determinism", "selftest_sensitivity"):
+        f = os.path.join(os.path.dirname(os.path.dirname(os.path.abspath(__file__))), "evidence", name + ".json")
+        if os.path.exists(f):
+            try:
+                st = json.load(open(f))
+                ev["coverage"][name + "_last_recorded"] = (
+                    {"ok": st.get("ok"), "results": st.get("results")} if name.endswith("determinism") else
+                    {"detected": st.get("detected"), "total": st.get("total"),
+                     "for_this_property": sorted(m["name"] for m in st.get("mutants", [])
+                                                 if m.get("property") == prop and m.get("detected"))})
+            except Exception:
+                pass
     os.makedirs(args.evidence_dir, exist_ok=True)
     path = os.path.join(args.evidence_dir, "%s.json" % prop)
     tmp = path + ".tmp"
